@@ -13,7 +13,7 @@ import random
 import numpy as np
 
 from common import run_tlc, tlc_must_pass, printed_json, validate_events, Infra, isolated_many
-from lib import Lib, Buf, FFT64, MASK_NONE, MASK_GENERIC
+from lib import Lib, Buf, FFT64, MASK_NONE, MASK_GENERIC, ro
 
 LEVEL = "model_checking"
 
@@ -36,21 +36,24 @@ def vmp_run(L, mod, n, mat, nrows, ncols, a, rs, entry, rng, a_pad=0, fill=0xFF,
         J.i64[:] = [rng.randrange(-5, 6) or 1 for _ in range(n * nrows * ncols)]
         L.call("vmp_prepare_contiguous", mod, pm, J, nrows, ncols, t1)
     m0, a0 = M.snapshot(), A.snapshot()
-    L.call("vmp_prepare_contiguous", mod, pm, M, nrows, ncols, t1)
+    with ro(M):
+        L.call("vmp_prepare_contiguous", mod, pm, M, nrows, ncols, t1)
     if not (pm.canaries_ok() and t1.canaries_ok() and M.canaries_ok()):
         return None, "vmp_prepare_contiguous wrote outside its output or scratch"
     pm0 = pm.snapshot()
     R = Buf(L.call("bytes_of_vec_znx_dft", mod, rs), off=off, fill=fill)
     if entry == "from_znx":
         t2 = Buf(L.call("vmp_apply_dft_tmp_bytes", mod, rs, a_size, nrows, ncols), off=off, fill=fill)
-        L.call("vmp_apply_dft", mod, R, rs, A, a_size, a_sl, pm, nrows, ncols, t2)
+        with ro(A, pm):
+            L.call("vmp_apply_dft", mod, R, rs, A, a_size, a_sl, pm, nrows, ncols, t2)
         extra = []
     else:
         D = Buf(L.call("bytes_of_vec_znx_dft", mod, a_size), off=off, fill=fill)
         L.call("vec_znx_dft", mod, D, a_size, A, a_size, a_sl)
         d0 = D.snapshot()
         t2 = Buf(L.call("vmp_apply_dft_to_dft_tmp_bytes", mod, rs, a_size, nrows, ncols), off=off, fill=fill)
-        L.call("vmp_apply_dft_to_dft", mod, R, rs, D, a_size, pm, nrows, ncols, t2)
+        with ro(D, pm):
+            L.call("vmp_apply_dft_to_dft", mod, R, rs, D, a_size, pm, nrows, ncols, t2)
         if not D.canaries_ok() or not np.array_equal(D.u8, d0):
             return None, "the DFT input vector was modified"
         extra = [D]
